@@ -238,12 +238,28 @@ def fills_of(it):
     return out
 
 
+def peel(t):
+    """Strip loop-variant / location wrappers at the root only (the inside keeps the identity of local collections)."""
+    while t[0] in ('lv', 'at'):
+        t = t[3] if t[0] == 'lv' else t[2]
+    return t
+
+
 def loop_of_item(it, t):
-    """The loop whose item the term t is (t = next(src).Some.0), or None."""
+    """The loop whose item the term t is (t = next(src).Some.0), or None.  Two loops over different local collections
+    can have the same version-less source, so the un-versioned iterator term decides when it is available."""
+    t = peel(t)
     src = as_item(versionless(t))
     if src is None:
         return None
-    for lp in loops_of(it):
-        if versionless(lp.src) == versionless(src):
-            return lp
-    return None
+    cands = [lp for lp in loops_of(it) if versionless(lp.src) == versionless(src)]
+    if len(cands) > 1 and t[0] == 'field' and t[2] == 'Some.0':
+        nx = peel(t[1])
+        if nx[0] == 'call' and nx[2]:
+            exact = [lp for lp in cands if lp.raw_src == nx[2][0]]
+            if exact:
+                return exact[0]
+            heads = [lp for lp in cands if nx[2][0][0] == 'lv' and nx[2][0][1] == lp.head]
+            if heads:
+                return heads[0]
+    return cands[0] if cands else None
